@@ -28,10 +28,10 @@ from lark import (
     Lark,
     Transformer,
     v_args,
-    UnexpectedCharacters,
-    UnexpectedEOF,
+    UnexpectedInput,
     ParseTree,
 )
+from lark.exceptions import VisitError
 
 from .types import Nil
 
@@ -144,6 +144,35 @@ class Token:
 
     def __init__(self, meta: MetaData):
         self.meta = meta
+
+
+def _syntax_error_token(
+    e: UnexpectedInput, source: str, filename: Union[str, pathlib.Path]
+) -> Token:
+    """Locate a lark syntax error. An unexpected end of input points to the last line."""
+    last_line = len(source.split("\n"))
+    line = e.line if e.line is not None and 0 < e.line <= last_line else last_line
+    column = e.column if e.column is not None and e.column > 0 else 1
+    return Token(MetaData(line, line, column, column, 0, 0, str(filename)))
+
+
+def _visit_error(e: VisitError, filename: Union[str, pathlib.Path]) -> Result[Nil, FcpError]:
+    """Convert an exception raised while building the AST into an error."""
+    meta = getattr(e.obj, "meta", None)
+    if meta is not None and getattr(meta, "line", None) is not None:
+        node = Token(
+            MetaData(
+                meta.line,
+                meta.end_line,
+                meta.column,
+                meta.end_column,
+                meta.start_pos,
+                meta.end_pos,
+                str(filename),
+            )
+        )
+        return error(f"Invalid schema: {e.orig_exc}", node)
+    return error(f"Invalid schema: {e.orig_exc}")
 
 
 def _convert_params(params: Dict[str, Callable]) -> Dict[str, Any]:
@@ -414,20 +443,25 @@ class FcpV2Transformer(Transformer):
         try:
             self.error_logger.add_source(filename.name, source)
             fcp_ast = fcp_parser.parse(source)
-        except (UnexpectedCharacters, UnexpectedEOF) as e:
+        except UnexpectedInput as e:
             return error(
                 self.error_logger.log_lark(filename.name, e),
-                Token(
-                    MetaData(e.line, e.line, e.column, e.column, 0, 0, str(filename))
-                ),
+                _syntax_error_token(e, source, filename),
             )
 
-        fcp = FcpV2Transformer(
-            pathlib.Path(filename).resolve(),
-            self.parser_context,
-            self.filesystem_proxy,
-            self.error_logger,
-        ).transform(fcp_ast)
+        try:
+            fcp = FcpV2Transformer(
+                pathlib.Path(filename).resolve(),
+                self.parser_context,
+                self.filesystem_proxy,
+                self.error_logger,
+            ).transform(fcp_ast)
+        except VisitError as e:
+            return _visit_error(e, filename).map_err(
+                lambda err: err.results_in(
+                    f"Failed to import {filename}", Token(_get_meta(tree, self))
+                )
+            )
 
         self.fcp.merge(
             fcp.map_err(
@@ -561,17 +595,20 @@ def _get_fcp(
     logger.add_source(filename.name, source)
     try:
         fcp_ast = fcp_parser.parse(source)
-    except UnexpectedCharacters as e:
+    except UnexpectedInput as e:
         return error(
             logger.log_lark(filename.name, e),
-            Token(MetaData(e.line, e.line, e.column, e.column, 0, 0, str(filename))),
+            _syntax_error_token(e, source, filename),
         )
 
     parser_context = ParserContext()
 
-    fcp = FcpV2Transformer(
-        filename, parser_context, filesystem_proxy, logger
-    ).transform(fcp_ast)
+    try:
+        fcp = FcpV2Transformer(
+            filename, parser_context, filesystem_proxy, logger
+        ).transform(fcp_ast)
+    except VisitError as e:
+        return _visit_error(e, filename)
 
     return Ok(fcp.attempt())
 
